@@ -22,6 +22,7 @@ type Ctx struct {
 	Rng    *rand.Rand
 	OutDir string
 	Only   int // replay: only this case id is emitted (-1 = all)
+	Fine   bool // fine-grained phase: the library is compiled against harness/vsync (lock operations are yield points, adversarial pools)
 	Input  json.RawMessage
 
 	mu         sync.Mutex
